@@ -11,8 +11,10 @@ def reg(pid, technique, text, note, category="exploration"):
     R[pid] = (category, technique, text, note)
 
 exec((HERE / "tools" / "registry.py").read_text())
+INTEGRATED = set(json.loads((HERE / "tools" / "integrated.json").read_text()))
 for f in sorted((HERE / "tools" / "registry.d").glob("*.py")):
-    exec(f.read_text())
+    if f.stem.upper() in INTEGRATED:   # entries written by check authors, enabled once reviewed
+        exec(f.read_text())
 
 checks = []
 for p in props:
